@@ -685,20 +685,34 @@ compact_theta_sketch_alloc<A> compact_theta_sketch_alloc<A>::deserialize_v4(
   if (!is_empty) checker<true>::check_seed_hash(seed_hash, compute_seed_hash(seed));
   uint64_t theta = theta_constants::MAX_THETA;
   if (preamble_longs > 1) theta = read<uint64_t>(is);
+  if (!is.good()) throw std::runtime_error("error reading from std::istream");
+  if (entry_bits < 1 || entry_bits > 63) {
+    throw std::invalid_argument("entry bits must be between 1 and 63, actual " + std::to_string(entry_bits));
+  }
+  if (num_entries_bytes > sizeof(uint32_t)) {
+    throw std::invalid_argument("number of bytes in the entry count must not exceed 4, actual " + std::to_string(num_entries_bytes));
+  }
   uint32_t num_entries = 0;
   for (unsigned i = 0; i < num_entries_bytes; ++i) {
-    num_entries |= read<uint8_t>(is) << (i << 3);
+    num_entries |= static_cast<uint32_t>(read<uint8_t>(is)) << (i << 3);
   }
+  if (!is.good()) throw std::runtime_error("error reading from std::istream");
   vector_bytes buffer(entry_bits, 0, allocator); // block of 8 entries takes entry_bits bytes
-  std::vector<uint64_t, A> entries(num_entries, 0, allocator);
+  // the result grows as the data arrives, so a corrupt count in a short stream fails early
+  const uint32_t block_size = 1 << 16;
+  std::vector<uint64_t, A> entries(allocator);
+  entries.reserve(std::min(num_entries, block_size));
 
   // unpack blocks of 8 deltas
   unsigned i;
   for (i = 0; i + 7 < num_entries; i += 8) {
     read(is, buffer.data(), buffer.size());
+    if (!is.good()) throw std::runtime_error("error reading from std::istream");
+    entries.resize(i + 8);
     unpack_bits_block8(&entries[i], buffer.data(), entry_bits);
   }
   // unpack extra deltas if fewer than 8 of them left
+  entries.resize(num_entries);
   if (i < num_entries) read(is, buffer.data(), whole_bytes_to_hold_bits((num_entries - i) * entry_bits));
   if (!is.good()) throw std::runtime_error("error reading from std::istream");
   const uint8_t* ptr = buffer.data();
